@@ -569,23 +569,32 @@ def op_token(op):
 
 def prog_model_lines(c):
     prog = ";".join(op_token(op) for op in c["prog"]) or "-"
-    return [f"nd {CLS_TAG[c['cls']]} {','.join(map(str, c['shape']))} {bits(c['flags'])} "
-            f"{','.join(map(str, meta_tokens(c['cls'], c['meta'])))} {prog}"]
+    args = (f"{CLS_TAG[c['cls']]} {','.join(map(str, c['shape']))} {bits(c['flags'])} "
+            f"{','.join(map(str, meta_tokens(c['cls'], c['meta'])))} {prog}")
+    # nd: model of the code as it is; nds: the corrected operations (Obj.stepSpec).  orix must agree with one of
+    # them: a future repair of a known finding keeps this site green (the prop site then stops reproducing it)
+    return ["nd " + args, "nds " + args]
 
 
 def sym_value(cls, s):
-    """value of a symbolic element `tag.<neg><conj><scale><inexact>` of the model"""
-    tag, st = s.split(".")
-    tab = table(kind_of(cls))
-    v = tab[int(tag)].copy()
-    if st[1] == "1":
-        v[1:] = -v[1:]
-    if st[0] == "1":
-        v = -v
-    sc = int(st[2])
-    if sc:
-        v = v / np.sqrt(np.sum(np.square(tab[int(tag)]))) ** sc
-    return v, st[3] == "1"
+    """value of a symbolic element `tag.<history>` of the model: the table entry with the recorded element-wise
+    operations applied in order, by the formulas the classes document (unit: v/|v|, inverse: conj(v)/|v|^2,
+    negation: -v).  Returns (value, went through a division?)"""
+    tag, hist = s.split(".")
+    v = table(kind_of(cls))[int(tag)].copy()
+    inexact = False
+    with np.errstate(all="ignore"):
+        for h in hist:
+            if h == "u":
+                v = np.nan_to_num(v / np.sqrt(np.sum(np.square(v))))
+                inexact = True
+            elif h == "i":
+                n2 = np.sqrt(np.sum(np.square(v))) ** 2
+                v = np.concatenate([v[:1], -v[1:]]) / n2
+                inexact = True
+            else:
+                v = -v
+    return v, inexact
 
 
 def run_impl_only(case):
@@ -610,9 +619,19 @@ def run_impl_only(case):
 
 
 def prog_model_check(ctx, c, outs):
-    cls = c["cls"]
-    out = outs[0]
     obj, ek, has_stack = run_impl_only(c)
+    r = compare_model(c, outs[0], obj, ek, has_stack)
+    if r is not None and len(outs) > 1 and outs[1] != outs[0]:
+        r2 = compare_model(c, outs[1], obj, ek, has_stack)
+        if r2 is None:
+            ctx.note("orix agrees with the corrected model (Obj.stepSpec) where the code-shaped model differs: "
+                     "a known finding seems repaired")
+            return None
+    return r
+
+
+def compare_model(c, out, obj, ek, has_stack):
+    cls = c["cls"]
     if out.startswith("!err"):
         mk = out.split()[1]
         if mk in ("internal", "parse"):
